@@ -135,14 +135,18 @@ def assemble(unit_path, variant=None):
                 ann["requires"] = (ann.get("requires") or "") + "\n        !(" + variant[1][qual] + "),\n"
             if variant and variant[0] == "vacuity" and (variant[1] is None or variant[1] == qual) and not ann.get("external_body"):
                 ann["head"] = (ann.get("head") or "") + "\n    proof { /*@VAC*/ assert(false); }\n"
-            text, lmap, src, log, labels, it = X.extract_fn(p["relpath"], qual, ann)
+            if ann.get("seg_from"):
+                text, lmap, src, log, labels, it = X.extract_segment(p["relpath"], qual, ann)
+                qual = ann["seg_name"]
+            else:
+                text, lmap, src, log, labels, it = X.extract_fn(p["relpath"], qual, ann)
             if "aborts" in p:
                 A.aborts[qual] = p["aborts"]
             start = len(A.lines) + 1
             A.emit(text, "extract", qual, lmap, p["relpath"])
             end = len(A.lines)
             A.rewrites += log
-            mode = "M3" if ann.get("slice_k") is not None else ("M2" if (ann.get("replaces") or ann.get("maploops") or ann.get("forloops")) else "M1")
+            mode = "M4" if ann.get("seg_from") else "M3" if ann.get("slice_k") is not None else ("M2" if (ann.get("replaces") or ann.get("maploops") or ann.get("forloops")) else "M1")
             if ann.get("imported_from"):
                 mode = "ASSUMED"
                 A.trusted.append(f"contract of {p['relpath']}::{qual} imported verbatim from unit {ann['imported_from']} where it is PROVED")
@@ -203,6 +207,10 @@ def assemble(unit_path, variant=None):
             ann["head"] = (ann.get("head") or "") + text
         elif name == "tail":
             ann["tail"] = (ann.get("tail") or "") + text
+        elif name == "params":
+            ann["seg_params"] = text
+        elif name == "segtail":
+            ann["seg_tail"] = text
         elif name == "before":
             ann.setdefault("before_let", {})[arg] = text
         elif name == "after":
@@ -235,7 +243,7 @@ def assemble(unit_path, variant=None):
         d, rest = m.group(1), m.group(2).strip()
         if d != "use":
             flush_groups()
-        if d in ("requires", "ensures", "closure", "loop", "maploop", "forloop", "looptail", "loophead", "head", "tail", "before", "after", "replace", "with", "decreases"):
+        if d in ("requires", "ensures", "closure", "loop", "maploop", "forloop", "looptail", "loophead", "head", "tail", "params", "segtail", "before", "after", "replace", "with", "decreases"):
             close_section()
             if pending is None:
                 raise Inconclusive(f"{unit_path}:{i+1}: //@{d} outside //@fn")
@@ -255,6 +263,10 @@ def assemble(unit_path, variant=None):
                 if "ret" in kv: ann["ret"] = kv["ret"]
                 if "rename" in kv: ann["rename"] = kv["rename"]
                 if "slice" in kv: ann["slice_k"] = int(kv["slice"])
+                if "seg" in kv:
+                    ann["seg_name"] = kv["seg"]; ann["seg_from"] = kv["from_stmt"]
+                    if "to_stmt" in kv: ann["seg_to"] = kv["to_stmt"]
+                    if "segret" in kv: ann["seg_ret"] = kv["segret"]
                 if "xb" in flags: ann["external_body"] = True
                 if "from" in kv:
                     # contract PROVED in another unit: copy its requires/ensures verbatim (labels become proved_in:<unit>:<label>)
@@ -266,6 +278,8 @@ def assemble(unit_path, variant=None):
                 if "inherent" in flags: ann["inherent"] = True
                 if "keepattrs" in flags: ann["drop_response_attrs"] = False
                 pending = {"kind": "fn", "relpath": relpath, "qual": qual, "ann": ann}
+                if "from" in kv:
+                    flush()
             elif d == "const":
                 pending = {"kind": "const", "relpath": relpath, "qual": qual,
                            "opts": {"storage": "storage" in flags, **({"expr": kv["expr"]} if "expr" in kv else {})}}
